@@ -48,7 +48,19 @@ pub fn judge_cell_sig(out: &mut Out, pid: &str, case: &Case, b: &Build, label: &
     match &b.result {
         Err(e) => {
             if case.ref_values() > 0 {
-                let sig = mksig(legacy_candidate && counterfactual_clean(case, d, explicit22));
+                let mut sig = mksig(legacy_candidate && counterfactual_clean(case, d, explicit22));
+                // listed finding: the cl23+ CSE pass hoists a repeated subexpression that uses an
+                // assign-bound variable out of the assign form ("Unbound use of vN_$_M").  Attributed
+                // only for exactly that error, in an optimising dialect, for a program with assign
+                // forms, and only when the same program compiles and is correct with the optimiser off.
+                if sig.is_none() && sig_override.is_none() && d.stepping() >= 23 {
+                    let m = e.msg();
+                    let is_unbound_assign_var = m.contains("Unbound use of v") && m.contains("_$_") && m.contains("as a variable name");
+                    let has_assign = case.has("assign") || case.has("assign-inline") || case.has("assign-lambda");
+                    if is_unbound_assign_var && has_assign && unoptimised_build_clean(case, d) {
+                        sig = Some("cl23-cse:assign-bound-variable-hoisted".to_string());
+                    }
+                }
                 out.violation(json!({"kind":"does_not_compile_though_source_has_a_value","engine":pid,"sig":sig,"build":label,"case":case.j(d),
                     "error":trunc(&e.msg(),400),"args":case.args.iter().map(|a| a.show()).collect::<Vec<_>>(),
                     "reference":case.refs.iter().map(|r| format!("{r:?}")).map(|s| trunc(&s,100)).collect::<Vec<_>>()}));
@@ -254,6 +266,26 @@ pub fn counterfactual_clean(case: &Case, d: Dialect, explicit_cl22: bool) -> boo
                 compared += 1;
             }
             _ => {}
+        }
+    }
+    compared > 0
+}
+
+/// The same program and dialect with the optimiser switched off: compiles and agrees with the
+/// reference on every argument tree?
+pub fn unoptimised_build_clean(case: &Case, d: Dialect) -> bool {
+    let text = case.text(d);
+    let c = match compile_modern_explicit(&text, "*command*", &[], &ModernOpts { optimize: false, frontend_opt: false, post_opt: false }) {
+        Ok(c) => c,
+        Err(_) => return false,
+    };
+    let mut compared = 0;
+    for (a, r) in case.args.iter().zip(case.refs.iter()) {
+        if let RefOutcome::Val(v) = r {
+            if consensus_run(&c.prog, a) != Outcome::Val(v.clone()) {
+                return false;
+            }
+            compared += 1;
         }
     }
     compared > 0
